@@ -1,4 +1,5 @@
 mod conv;
+mod csvimp;
 mod diag;
 mod expr;
 mod golden;
@@ -9,6 +10,7 @@ mod syntax;
 mod loader;
 mod price;
 mod report;
+mod rules;
 mod runner;
 mod total;
 mod trace;
@@ -31,12 +33,14 @@ fn main() {
         "ledger" => runner::run_records(&opts, ledger::replay),
         "ledger-alias" => { let w = workdir.clone(); runner::run_records(&opts, move |i, r| ledger::replay_alias(i, r, &w)) }
         "conv" => { let w = workdir.clone(); runner::run_records(&opts, move |i, r| conv::replay(i, r, &w)) }
+        "csv" => { let w = workdir.clone(); runner::run_records(&opts, move |i, r| csvimp::replay(i, r, &w)) }
         "diag" => { let w = workdir.clone(); runner::run_records(&opts, move |i, r| diag::replay(i, r, &w)) }
         "expr" => runner::run_records(&opts, expr::replay),
         "literal" => runner::run_records(&opts, literal::replay),
         "literal-space" => runner::run_records(&opts, literal::replay_space),
         "loader" => { let w = workdir.clone(); runner::run_records(&opts, move |i, r| loader::replay(i, r, &w)) }
         "total" => { let w = workdir.clone(); runner::run_records(&opts, move |i, r| total::replay(i, r, &w)) }
+        "rules" => runner::run_records(&opts, rules::replay),
         "syntax" => runner::run_records(&opts, syntax::replay),
         "price" => { let w = workdir.clone(); runner::run_records(&opts, move |i, r| price::replay(i, r, &w)) }
         "report" => { let w = workdir.clone(); runner::run_records(&opts, move |i, r| report::replay(i, r, &w)) }
